@@ -257,7 +257,10 @@ def compare_action(r, m, cd, after=None, what=""):
     if mw != r["writes"]:
         return {what + " writes": r["writes"][:6], "model": mw[:6]}
     if after is not None:
+        final = {}
         for p, c in m["effects"]:
+            final[p] = c          # the same path may be written twice (two entries with one name): the last write wins
+        for p, c in final.items():
             if after.get(cd.rel(p)) != c:
                 got = after.get(cd.rel(p))
                 d = next((i for i in range(min(len(got or b""), len(c))) if got[i] != c[i]), None) if got is not None else None
